@@ -16,6 +16,8 @@ import PetgraphModel.Proofs.C06W3Stable
 import PetgraphModel.Proofs.C06W3Spec
 import PetgraphModel.Proofs.C06W3AsIs
 import PetgraphModel.Proofs.C06W3Abs
+import PetgraphModel.Proofs.C06W5Replay
+import PetgraphModel.Proofs.C06W5Abs
 /-
 C06 — every graph type and adaptor shows one consistent graph through the `visit` traits.
 
@@ -36,6 +38,12 @@ Wave 2 (section "wave 2" below): `C06_consistent_<Type>` — `TableConsistent` o
 MODEL (Model/C06Views.lean) in every state satisfying the type's invariant, hence after every history.  The dumped
 tables of the real crate are in addition judged on every run by `checkTable` (soundness: `C06_checkTable_sound`).
 Only property theorems live here; lemmas are in Proofs/VisitTable.lean.
+
+Wave 5 (section "wave 5" at the end): the tie between the storage-model tables and the real dumps — the driver REPLAYS the
+operation history of every base graph on the storage mirror of the owning vertical and compares the dumped table EXACTLY
+with `<type>Table state`; `C06_replay_*` say that every replayed state is inside the scope of the `C06_consistent_<Type>`
+theorems; the bounds "ids below 100" are gone (`C06_pcode_injective`), the unused `Fits` / `LFits` hypotheses are gone;
+`C06_table_abs_MatrixGraph / _Csr / _List`; run-time checks of the hypotheses (`C06_*_check`).
 
 Wave 3 (section "wave 3" at the end, after an independent audit): the strengthened predicate `TableConsistentS` and the
 restatement of `C06_frozenOwned` against the inner table (the old one is vacuous); `C06_consistent_StableGraph` over the
@@ -151,13 +159,14 @@ def w2 : Table :=
     edgesIn := some [(0, [e.swap]), (1, [e])],
     adj := some [(0, [1]), (1, [0])] }
 
-/-- `MatrixGraph<Directed>` with the single edge `1 → 0` (weight 7), as dumped from the real crate (D6) -/
+/-- `MatrixGraph<Directed>` with the single edge `1 → 0` (weight 7), as dumped from the real crate (D6); the pair edge ids
+are `pcode` codes: `pcode 1 0 = 2`, `pcode 0 1 = 1` -/
 def w3 : Table :=
   { directed := true, ids := some [0, 1], refs := some [(0, 11), (1, 12)], nodeCount := some 2,
     nodeBound := 2, toIx := [(0, 0), (1, 1)], fromIx := [(0, 0), (1, 1)], compact := false,
-    erefs := some [⟨100, 1, 0, 7⟩], edgeCount := some 1, edgeBound := none, eix := none,
+    erefs := some [⟨2, 1, 0, 7⟩], edgeCount := some 1, edgeBound := none, eix := none,
     nbrs := some [(0, []), (1, [0])], nbrsOut := some [(0, []), (1, [0])], nbrsIn := some [(0, [1]), (1, [])],
-    edges := some [(0, []), (1, [⟨100, 1, 0, 7⟩])], edgesOut := some [(0, []), (1, [⟨100, 1, 0, 7⟩])],
+    edges := some [(0, []), (1, [⟨2, 1, 0, 7⟩])], edgesOut := some [(0, []), (1, [⟨2, 1, 0, 7⟩])],
     edgesIn := some [(0, [⟨1, 0, 1, 7⟩]), (1, [])],
     adj := some [(0, []), (1, [0])] }
 
@@ -235,34 +244,32 @@ way the Rust trait impls do (and the way `harness/src/c06.rs` dumps them); the t
 satisfies every clause of the property in every state that satisfies the type's representation invariant, hence
 after every history. -/
 
-/-- `GraphMap` (directed and undirected): in every state satisfying the C03 invariant, with node values below 100
-(the harness's pair edge-id code `a * 100 + b` names an edge uniquely only there), all thirteen clauses hold for the
-table computed from the two `IndexMap`s: identifiers/references/count, the compact `NodeIndexable` numbering,
-`edge_references`/`edge_count`, `EdgeIndexable`, `neighbors`, `neighbors_directed`, `edges`, `edges_directed`
-(both directions) and `is_adjacent`. -/
-theorem C06_consistent_GraphMap (s : GM.State) (h : GMProofs.Inv s) (hb : GMBounded s) :
+/-- `GraphMap` (directed and undirected): in every state satisfying the C03 invariant — ANY node values (wave 5: the
+pair edge-id code `pcode a b` of the tables is injective on all pairs, `C06_pcode_injective`; the bound "node values
+below 100" of wave 2 is gone) — all thirteen clauses hold for the table computed from the two `IndexMap`s:
+identifiers/references/count, the compact `NodeIndexable` numbering, `edge_references`/`edge_count`, `EdgeIndexable`,
+`neighbors`, `neighbors_directed`, `edges`, `edges_directed` (both directions) and `is_adjacent`. -/
+theorem C06_consistent_GraphMap (s : GM.State) (h : GMProofs.Inv s) :
     TableConsistent (GM.nodesOf s) (graphMapTable s) :=
-  graphMapTable_consistent s h hb
+  graphMapTable_consistent s h
 
-/-- … hence after EVERY history of public calls on a fresh map (any length, any arguments below 100), and the
-run-time judge accepts that table. -/
-theorem C06_consistent_GraphMap_all_histories (directed : Bool) (ops : List GM.Op)
-    (hops : ∀ op ∈ ops, GMJudge.OpBounded 100 op) :
+/-- … hence after EVERY history of public calls on a fresh map (any length, ANY arguments), and the run-time judge
+accepts that table. -/
+theorem C06_consistent_GraphMap_all_histories (directed : Bool) (ops : List GM.Op) :
     let s := (GM.run (GM.State.empty directed) ops).1
     TableConsistent (GM.nodesOf s) (graphMapTable s) ∧ checkTable (GM.nodesOf s) (graphMapTable s) = true := by
   intro s
   have hc := C06_consistent_GraphMap s (GMProofs.run_spec _ ops (GMProofs.inv_empty directed)).1
-    (gmBounded_run directed ops hops)
   exact ⟨hc, C06_checkTable_complete _ _ hc⟩
 
 /-- … and so is every adaptor stack over a reachable `GraphMap` (composition with `C06_stack`). -/
-theorem C06_GraphMap_stack (directed : Bool) (ops : List GM.Op) (hops : ∀ op ∈ ops, GMJudge.OpBounded 100 op)
+theorem C06_GraphMap_stack (directed : Bool) (ops : List GM.Op)
     (stack : List Op) (hok : StackOk (graphMapTable (GM.run (GM.State.empty directed) ops).1).directed stack)
     (hfo : Op.frozenOwned ∉ stack) :
     let s := (GM.run (GM.State.empty directed) ops).1
     TableConsistent (GM.nodesOf s) (applyStack Cfg.ideal stack (graphMapTable s)) ∧
       abs (applyStack Cfg.ideal stack (graphMapTable s)) = specStack stack (abs (graphMapTable s)) :=
-  C06_stack _ stack _ hok hfo (C06_consistent_GraphMap_all_histories directed ops hops).1
+  C06_stack _ stack _ hok hfo (C06_consistent_GraphMap_all_histories directed ops).1
 
 /-- the `0` default for a missing looked-up weight in `GMView.eref` is never used: the per-node edge iterators
 find every weight (no `unreachable!()`), so `graphMapTable` is the table of a panic-free dump. -/
@@ -270,19 +277,16 @@ theorem C06_GraphMap_table_total (s : GM.State) (h : GMProofs.Inv s) (a : Nat) (
     (∀ e ∈ GM.edgesOf s a, e.2.2.isSome = true) ∧ (∀ e ∈ GM.edgesDirected s a d, e.2.2.isSome = true) :=
   graphMapTable_no_default s h a d
 
-/-- non-vacuity: a history with reciprocal edges, a self-loop, `swap_remove` in both maps and a re-added edge
-satisfies the hypotheses, and its table is the non-trivial one the judge accepts. -/
-example : (∀ op ∈ ([.addEdge 1 2 7, .addEdge 2 1 8, .addEdge 1 1 9, .addEdge 0 1 3, .removeNode 0, .removeEdge 1 2,
-      .addEdge 1 2 5, .addNode 7] : List GM.Op), GMJudge.OpBounded 100 op) := by
-  intro op hop; simp only [List.mem_cons, List.not_mem_nil, or_false] at hop
-  rcases hop with rfl | rfl | rfl | rfl | rfl | rfl | rfl | rfl <;> simp [GMJudge.OpBounded]
+/-- non-vacuity: the table of a history with a self-loop, `swap_remove` in both maps and node values far beyond the old
+bound is the non-trivial one (edge ids are `pcode` codes of the canonical pairs `(1, 2)`, `(1, 1)`, `(1, 1000)`). -/
 example :
-    (graphMapTable (GM.run (GM.State.empty false) [.addEdge 2 1 7, .addEdge 1 1 9, .addEdge 5 1 2, .removeNode 5, .addNode 0]).1).erefs
-      = some [⟨102, 1, 2, 7⟩, ⟨101, 1, 1, 9⟩] := by decide
+    (graphMapTable (GM.run (GM.State.empty false) [.addEdge 2 1 7, .addEdge 1 1 9, .addEdge 5 1 2, .removeNode 5, .addNode 0,
+        .addEdge 1000 1 4]).1).erefs
+      = some [⟨5, 1, 2, 7⟩, ⟨3, 1, 1, 9⟩, ⟨1000001, 1, 1000, 4⟩] := by decide
 
 /-! #### `Csr` -/
 
-/-- the node count fits the index type (`Ix::new` does not wrap); kept by every history inside `C05T.Fits` -/
+/-- the node count fits the index type (`Ix::new` does not wrap); kept by EVERY history (`add_node` panics at capacity) -/
 abbrev CsrIxFits := CsrW2.IxFits
 /-- `edge_count()` of an undirected `Csr` counts every edge once (follows from the C05 refinement, `csr_edgeCountOk`) -/
 abbrev CsrEdgeCountOk := CsrW2.EdgeCountOk
@@ -295,36 +299,35 @@ theorem C06_consistent_Csr (s : CsrM.State) (h : C05T.Inv s) (hf : CsrIxFits s) 
   csrTable_consistent s h hf hd
 
 /-- `Csr<_, _, Undirected, _>` behind the repair of the open finding D7 (`edge_references` lists each non-loop edge
-in both rows): with one reference per edge under its endpoint-pair id (`repairD7`), the table is consistent
-(at most 100 nodes: the pair code). The unrepaired table violates the property (`C06_D7_counterexample`). -/
+in both rows): with one reference per edge under its endpoint-pair id (`repairD7`), the table is consistent — any number
+of nodes (wave 5: the pair code is `pcode`). The unrepaired table violates the property (`C06_D7_counterexample`). -/
 theorem C06_consistent_Csr_undirected_repairD7 (s : CsrM.State) (h : C05T.Inv s) (hf : CsrIxFits s)
-    (hd : s.directed = false) (h100 : s.nodeCount ≤ 100) (hcount : CsrEdgeCountOk s) :
+    (hd : s.directed = false) (hcount : CsrEdgeCountOk s) :
     TableConsistent (CsrM.nodeIdentifiers s) (repairD7 (csrTable s)) :=
-  csrTable_consistent_undirected s h hf hd h100 hcount
+  csrTable_consistent_undirected s h hf hd hcount
 
-/-- all histories, directed `Csr`, from `with_nodes(n)` (`new` = `with_nodes(0)`): consistent, and no trait call
-made for the table panics. -/
+/-- all histories, directed `Csr`, from `with_nodes(n)` (`new` = `with_nodes(0)`; `h0`: the `n` initial nodes fit the
+index type): consistent, and no trait call made for the table panics.  Wave 5: NO hypothesis on the history (the
+`C05T.Fits` of wave 2 was unused: at the capacity of the index type `add_node` panics and leaves the graph as it was). -/
 theorem C06_consistent_Csr_all_histories (m c : Nat) (dbg : Bool) (n : Nat) (ops : List CsrM.Op)
-    (hfits : C05T.Fits m n ops) (h0 : m = 0 ∨ n ≤ m) :
+    (h0 : m = 0 ∨ n ≤ m) :
     let s := (CsrM.run (CsrM.withNodes true m c dbg n) ops).1
     TableConsistent (CsrM.nodeIdentifiers s) (csrTable s) ∧ CsrView.callsOk s :=
-  csrTable_consistent_all_histories m c dbg n ops hfits h0
+  csrTable_consistent_all_histories m c dbg n ops h0
 
 /-- … and from `from_sorted_edges`. -/
 theorem C06_consistent_Csr_from_sorted (m c : Nat) (dbg : Bool) (es : List CsrM.Edge) (s0 : CsrM.State)
-    (ops : List CsrM.Op) (h : CsrM.fromSortedEdges m c dbg es = .ok s0) (h0 : CsrIxFits s0)
-    (hfits : C05T.Fits m s0.nodeCount ops) :
+    (ops : List CsrM.Op) (h : CsrM.fromSortedEdges m c dbg es = .ok s0) (h0 : CsrIxFits s0) :
     let s := (CsrM.run s0 ops).1
     TableConsistent (CsrM.nodeIdentifiers s) (csrTable s) ∧ CsrView.callsOk s :=
-  csrTable_consistent_from_sorted m c dbg es s0 ops h h0 hfits
+  csrTable_consistent_from_sorted m c dbg es s0 ops h h0
 
-/-- all histories, undirected `Csr`, behind `repairD7` (graphs of at most 100 nodes). -/
+/-- all histories, undirected `Csr`, behind `repairD7` (no hypothesis on the history, no bound on the node count). -/
 theorem C06_consistent_Csr_undirected_all_histories (m c : Nat) (dbg : Bool) (n : Nat) (ops : List CsrM.Op)
-    (hfits : C05T.Fits m n ops) (h0 : m = 0 ∨ n ≤ m)
-    (h100 : (CsrM.run (CsrM.withNodes false m c dbg n) ops).1.nodeCount ≤ 100) :
+    (h0 : m = 0 ∨ n ≤ m) :
     let s := (CsrM.run (CsrM.withNodes false m c dbg n) ops).1
     TableConsistent (CsrM.nodeIdentifiers s) (repairD7 (csrTable s)) ∧ CsrView.callsOk s :=
-  csrTable_consistent_all_histories_undirected m c dbg n ops hfits h0 h100
+  csrTable_consistent_all_histories_undirected m c dbg n ops h0
 
 /-- tie to the dumped witness: the table the MODEL computes for `Csr<Undirected>` with the single edge `0 – 1`
 is, field for field, the table dumped from the real crate (`w4`, finding D7). -/
@@ -337,21 +340,36 @@ theorem C06_Csr_D7_model_is_dump :
 /-- well-formed `adj::List` state: node indices fit the index type and every stored successor is a node (what
 every history keeps whose `add_node_from_edges` calls name existing nodes: `add_node_from_edges` itself checks nothing) -/
 abbrev ListWF := Visit.ListWF
-/-- every row has at most 100 successors (the harness's edge-id code `from * 100 + successor_index`) -/
+/-- every row has at most 100 successors (wave 2 needed this for the old edge-id code `from * 100 + successor_index`; no
+theorem needs it any more) -/
 abbrev ListBounded := Visit.ListBounded
 
 /-- `adj::List`: the table computed from the successor rows is consistent in every well-formed state (parallel
-edges and self-loops included). -/
-theorem C06_consistent_List (s : AdjM.State) (h : ListWF s) (hb : ListBounded s) :
+edges and self-loops included; rows of any length: the edge-id code is `pcode from successor_index`). -/
+theorem C06_consistent_List (s : AdjM.State) (h : ListWF s) :
     TableConsistent (AdjM.nodeIndices s) (adjListTable s) :=
-  adjListTable_consistent s h hb
+  adjListTable_consistent s h
 
-/-- all histories from `List::new()` (hypotheses of `C05_list_all_histories`; the successors named by
-`add_node_from_edges` exist; at most 100 successor entries are ever added). -/
-theorem C06_consistent_List_all_histories (m : Nat) (ops : List AdjM.Op)
-    (hf : C05T.LFits m 0 ops) (ht : Visit.TargetsOk 0 ops) (hbud : Visit.budget ops ≤ 100) :
+/-- all histories from `List::new()`, of ANY length, valid or panicking calls, up to and beyond the capacity of the
+index type (wave 5: no `LFits`, no budget).  The one side condition is the one the Rust API leaves to the caller: the
+successors named by an `add_node_from_edges` call exist (`TargetsOkRun`: `OpTargetsOk` at the node count of the state the
+call is made in; without it the statement is false, see Proofs/C06W2List.lean). -/
+theorem C06_consistent_List_all_histories (m : Nat) (ops : List AdjM.Op) (ht : Visit.TargetsOkRun (AdjM.new m) ops) :
     TableConsistent (AdjM.nodeIndices (AdjM.run (AdjM.new m) ops).1) (adjListTable (AdjM.run (AdjM.new m) ops).1) :=
-  adjListTable_consistent_all_histories' m ops hf ht hbud
+  (adjListTable_consistent_all_histories m ops ht).1
+
+/-- the wave-2 statement is a corollary (its hypotheses `LFits`, `TargetsOk` imply `TargetsOkRun`; its budget ≤ 100 is
+not needed) … -/
+theorem C06_consistent_List_all_histories_w2 (m : Nat) (ops : List AdjM.Op)
+    (hf : C05T.LFits m 0 ops) (ht : Visit.TargetsOk 0 ops) :
+    TableConsistent (AdjM.nodeIndices (AdjM.run (AdjM.new m) ops).1) (adjListTable (AdjM.run (AdjM.new m) ops).1) :=
+  adjListTable_consistent_all_histories' m ops hf ht
+
+/-- … and a history without `add_node_from_edges` (all the harness generates) needs no hypothesis at all. -/
+theorem C06_consistent_List_plain_histories (m : Nat) (ops : List AdjM.Op)
+    (hp : ∀ op ∈ ops, ∀ es, op ≠ .addNodeFromEdges es) :
+    TableConsistent (AdjM.nodeIndices (AdjM.run (AdjM.new m) ops).1) (adjListTable (AdjM.run (AdjM.new m) ops).1) :=
+  C06_consistent_List_all_histories m ops (targetsOkRun_of_plain ops _ hp)
 
 /-- the defaults of `adjListTable` for a panicking call are never used in a well-formed state. -/
 theorem C06_List_table_total (s : AdjM.State) (h : ListWF s) :
@@ -362,31 +380,31 @@ theorem C06_List_table_total (s : AdjM.State) (h : ListWF s) :
 /-! #### `MatrixGraph` -/
 
 /-- `MatrixGraph<_, _, _, Undirected, _, _>`: the table as it stands is consistent in every state satisfying the
-C04 invariant and refinement relation (live ids below 100: the pair code). -/
+C04 invariant and refinement relation (no bound on the ids: wave 5, the pair code is `pcode`). -/
 theorem C06_consistent_MatrixGraph_undirected {s : Matrix.State} {g : MatrixSpec.G} (h : C04T.Inv s) (r : C04T.R s g)
-    (hb : ∀ a ∈ s.nodes.ids, a < 100) (hd : s.dir = false) :
+    (hd : s.dir = false) :
     TableConsistent s.nodes.ids (matrixTable s) :=
-  matrixTable_consistent_undirected h r hb hd
+  matrixTable_consistent_undirected h r hd
 
 /-- `MatrixGraph<_, _, _, Directed, _, _>` behind the repair of the open finding D6 (`edges_directed(b, Incoming)`
 yields `(b, a)` for an edge `a → b`): with the endpoints of the incoming references put right the table is consistent. -/
 theorem C06_consistent_MatrixGraph_directed_repairD6 {s : Matrix.State} {g : MatrixSpec.G} (h : C04T.Inv s)
-    (r : C04T.R s g) (hb : ∀ a ∈ s.nodes.ids, a < 100) (hd : s.dir = true) :
+    (r : C04T.R s g) (hd : s.dir = true) :
     TableConsistent s.nodes.ids (repairD6 (matrixTable s)) :=
-  matrixTable_consistent_directed h r hb hd
+  matrixTable_consistent_directed h r hd
 
 /-- … and the directed table AS IT STANDS satisfies every clause except the one D6 is about
 (`neighbors_directed(Incoming)` included). -/
 theorem C06_consistent_MatrixGraph_asIs_without_edgesIn {s : Matrix.State} {g : MatrixSpec.G} (h : C04T.Inv s)
-    (r : C04T.R s g) (hb : ∀ a ∈ s.nodes.ids, a < 100) :
+    (r : C04T.R s g) :
     TableConsistent s.nodes.ids { matrixTable s with edgesIn := none } :=
-  matrixTable_consistent_asIs h r hb
+  matrixTable_consistent_asIs h r
 
 /-- all histories from every constructor (the quantifier of `C04_all_histories`: edge-writing calls between
-existing nodes), live ids below 100. -/
+existing nodes); no bound on the ids. -/
 theorem C06_consistent_MatrixGraph_all_histories (dir nz : Bool) (ixMax k : Nat) (ops : List Matrix.Op) :
     ∃ s0, Matrix.withCapacity dir nz ixMax k = .ok s0 ∧
-      (C04T.ValidHist s0 (MatrixSpec.G.empty dir) ops → (∀ a ∈ (Matrix.run s0 ops).1.nodes.ids, a < 100) →
+      (C04T.ValidHist s0 (MatrixSpec.G.empty dir) ops →
         (Matrix.run s0 ops).1.dir = dir ∧
         TableConsistent (Matrix.run s0 ops).1.nodes.ids
           (if dir then repairD6 (matrixTable (Matrix.run s0 ops).1) else matrixTable (Matrix.run s0 ops).1)) :=
@@ -748,5 +766,225 @@ live node indices, the live edges under their indices; `node_references` are the
 theorem C06_table_abs_StableGraph (s : SG.State) :
     abs (stableTable s) = agraphOfSGSpec (C02T.abs s) ∧ (stableTable s).refs = some (C02T.abs s).nodeRefs :=
   stableTable_abs s
+
+
+/-! ### wave 5
+
+#### 1. the pair edge-id code is injective on ALL pairs: no bound on node ids anywhere
+
+`MatrixGraph` and `GraphMap` identify an edge by its endpoint pair, `adj::List` by `(from, successor_index)`; the tables
+(and the harness) code such a pair as ONE natural number `pcode a b`.  Wave 2 used `a * 100 + b`, which names a pair
+uniquely only for `b < 100` — the source of every "ids below 100" hypothesis.  `pcode` is the square-shell pairing
+function; the theorems above (`C06_consistent_GraphMap`, `_MatrixGraph_*`, `_Csr_undirected_*`, `_List*`) now hold for
+all ids / node counts / row lengths. -/
+
+theorem C06_pcode_injective (a b c d : Nat) (h : pcode a b = pcode c d) : a = c ∧ b = d := pcode_inj h
+
+/-- the old code was NOT injective (why the bound was needed): `(0, 100)` and `(1, 0)` got the same code. -/
+theorem C06_old_pair_code_false_witness : (0 * 100 + 100 = 1 * 100 + 0) ∧ ((0, 100) ≠ (1, 0)) := by decide
+
+example : pcode 0 100 ≠ pcode 1 0 ∧ pcode 4000000000 4000000000 < 2 ^ 64 := by decide
+
+/-! #### 2. REPLAY: the table the driver compares the real dump with is the table of a state inside the theorems' scope
+
+`harness/src/c06.rs` prints every constructor / mutating call in the request syntax of the vertical that owns the
+storage type; `C06R.parseReq` turns a request into that vertical's `Op`, `C06R.Store.exec` runs that vertical's own
+`step` (Model/C06Replay.lean).  The driver answers `MODELDIFF` unless the dumped table is, field for field,
+`Store.table` of the mirror state — `graphTable` / `stableTable` / `graphMapTable` / `matrixTable` / `csrTable` /
+`adjListTable` — for all six types, both edge types, every intermediate state (vacancies, removed and reused ids). -/
+
+/-- the hypotheses of the storage theorem of the store's type (C01 / C02 / C03 invariant; C04 invariant and refinement
+relation; C05 `Good`, `Abs`, `IxFits`; `ListWF`) -/
+abbrev StoreInv := C06R.StoreInv
+
+/-- every constructor the driver starts a case with establishes them … -/
+theorem C06_replay_init (ty : String) (dir dbg : Bool) (st : C06R.Store) (h : C06R.Store.init ty dir dbg = some st) :
+    StoreInv st :=
+  C06R.storeInv_init ty dir dbg st h
+
+/-- … every request `Store.exec` ACCEPTS preserves them (any request of the owning vertical's alphabet: valid or
+panicking, at or beyond capacity; refused are only requests outside the storage theorems' quantifier — then the driver
+answers `SPECFAIL generator left the proved range`) … -/
+theorem C06_replay_step (st st' : C06R.Store) (r : C06R.Req) (hinv : StoreInv st) (h : st.exec r = .ok st') :
+    StoreInv st' :=
+  C06R.storeInv_exec r hinv h
+
+/-- … and under them the mirror's table — as it stands for `Graph`, `StableGraph`, `GraphMap`, `adj::List`, directed
+`Csr`, undirected `MatrixGraph`; with the OPEN findings D6 / D7 repaired for directed `MatrixGraph` / undirected `Csr`
+(`Store.repaired`) — satisfies every clause of the property. -/
+theorem C06_replay_state_consistent (st : C06R.Store) (h : StoreInv st) : TableConsistent st.qs st.repaired :=
+  C06R.storeInv_consistent st h
+
+/-- **all replayed histories**: for every storage type and edge type, after EVERY sequence of requests the driver
+replays (any length), the table it compares the real dump with satisfies the property (D6 / D7 repaired), and the
+run-time judge accepts it. -/
+theorem C06_replay_all_histories (ty : String) (dir dbg : Bool) (st0 st : C06R.Store) (rs : List C06R.Req)
+    (h0 : C06R.Store.init ty dir dbg = some st0) (h : C06R.execAll st0 rs = .ok st) :
+    TableConsistent st.qs st.repaired ∧ checkTable st.qs st.repaired = true := by
+  have hc := C06R.replay_consistent ty dir dbg st0 st rs h0 h
+  exact ⟨hc, C06_checkTable_complete _ _ hc⟩
+
+/-- the replay IS the `run` of the owning vertical's mirror model: the replayed state is the state the
+`C06_consistent_<Type>_all_histories` theorems (and the all-histories theorems of C01–C05) talk about. -/
+theorem C06_replay_is_run :
+    (∀ (ops : List G.Op) (s : G.State) (st : C06R.Store),
+      C06R.execAll (.graph s) (ops.map .gOp) = .ok st → st = .graph (G.run s ops).1) ∧
+    (∀ (ops : List SG.Op) (s : SG.State) (st : C06R.Store),
+      C06R.execAll (.stable s) (ops.map .sOp) = .ok st → ∃ s' outs, SG.run s ops = .ok (s', outs) ∧ st = .stable s') ∧
+    (∀ (ops : List GM.Op) (s : GM.State) (st : C06R.Store),
+      C06R.execAll (.map s) (ops.map .mOp) = .ok st → st = .map (GM.run s ops).1) ∧
+    (∀ (ops : List Matrix.Op) (s : Matrix.State) (st : C06R.Store),
+      C06R.execAll (.matrix s) (ops.map .xOp) = .ok st → st = .matrix (Matrix.run s ops).1) ∧
+    (∀ (ops : List CsrM.Op) (s : CsrM.State) (st : C06R.Store),
+      C06R.execAll (.csr s) (ops.map .cOp) = .ok st → st = .csr (CsrM.run s ops).1) ∧
+    (∀ (ops : List AdjM.Op) (s : AdjM.State) (st : C06R.Store),
+      C06R.execAll (.list s) (ops.map .lOp) = .ok st → st = .list (AdjM.run s ops).1) :=
+  ⟨C06R.replay_graph_is_run, C06R.replay_stable_is_run, C06R.replay_map_is_run, C06R.replay_matrix_is_run,
+   C06R.replay_csr_is_run, C06R.replay_list_is_run⟩
+
+/-- the defaults `csrTable` uses for a panicking call are never used on a replayed `Csr` state. -/
+theorem C06_replay_Csr_callsOk (s : CsrM.State) (h : StoreInv (.csr s)) : CsrView.callsOk s :=
+  C06R.storeInv_csr_callsOk s h
+
+/-- non-vacuity: the hypotheses are met by replayed histories with removals (a vacant `StableGraph` slot, a removed and
+reused `MatrixGraph` id), and the tables are the non-trivial ones. -/
+example :
+    ((C06R.Store.init "stable" true).bind fun st0 =>
+      (C06R.execAll st0 [.sNew, .sOp (.addNode 11), .sOp (.addNode 12), .sOp (.addNode 13), .sOp (.addEdge 0 1 5),
+          .sOp (.addEdge 1 2 6), .sOp (.removeNode 0)]).toOption.map fun st =>
+        decide (st.table.ids = some [1, 2] ∧ st.table.nodeBound = 3 ∧ st.table.erefs = some [⟨1, 1, 2, 6⟩]))
+      = some true := by decide
+example :
+    ((C06R.Store.init "matrix" false).bind fun st0 =>
+      (C06R.execAll st0 [.xNew 2, .xOp (.addNode 11), .xOp (.addNode 12), .xOp (.addNode 13), .xOp (.addEdge 0 2 5),
+          .xOp (.removeNode 1), .xOp (.addNode 14), .xOp (.addEdge 1 1 7)]).toOption.map fun st =>
+        decide (st.table.ids = some [0, 1, 2] ∧ st.table.refs = some [(0, 11), (1, 14), (2, 13)] ∧
+          st.table.erefs = some [⟨pcode 1 1, 1, 1, 7⟩, ⟨pcode 0 2, 2, 0, 5⟩]))
+      = some true := by decide
+/-- a request outside C04's quantifier (an edge to an id that is not live) is refused, not replayed. -/
+example :
+    ((C06R.Store.init "matrix" true).map fun st0 =>
+      (C06R.execAll st0 [.xNew 0, .xOp (.addNode 11), .xOp (.addEdge 0 3 5)]).toOption.isNone) = some true := by decide
+
+/-! #### 3. run-time checks of the hypotheses (G-A)
+
+Every hypothesis of a theorem above that concerns the concrete case has an executable form the driver evaluates on every
+line it judges; what passes is provably inside the theorems' scope. -/
+
+/-- `StackOk` (hypothesis of `C06_stack*`): the driver evaluates `stackOkB base.directed stack` on every `view` line
+(`SPECFAIL generator left the proved range` otherwise; the generator uses the orientation-dependent predicates 6 and 8
+on directed views only). -/
+theorem C06_stackOk_check (d : Bool) (ops : List Op) (h : C06Checks.stackOkB d ops = true) : StackOk d ops :=
+  C06R.stackOk_check ops d h
+
+/-- the check refuses nothing that is in scope. -/
+theorem C06_stackOk_check_complete (d : Bool) (ops : List Op) (h : StackOk d ops) : C06Checks.stackOkB d ops = true :=
+  C06R.stackOk_complete ops d h
+
+/-- `TableConsistent` of the base (hypothesis of every adaptor theorem) is what the driver evaluates on every `base`
+dump: `checkTableWhy` answers no violated clause. -/
+theorem C06_baseConsistent_check (qs : List Nat) (t : Table) (h : checkTableWhy qs t = []) : TableConsistent qs t :=
+  C06_checkTable_sound qs t (by simp [checkTable, h])
+
+/-- C04's quantifier (`Valid`: an edge-writing call names two live nodes) is what `Store.exec` evaluates before it
+replays a `MatrixGraph` request. -/
+theorem C06_matrixValid_check {s : Matrix.State} {g : MatrixSpec.G} (r : C04T.R s g) (op : Matrix.Op)
+    (h : C06R.matrixValidB s op = true) : C04T.Valid s.nz g op :=
+  C06R.matrixValid_check r op h
+
+/-- `CsrIxFits` of a freshly constructed `Csr` (`with_nodes`, `from_sorted_edges`) is what `Store.exec` evaluates. -/
+theorem C06_csrIxFits_check (s : CsrM.State) (h : C06R.csrIxFitsB s = true) : CsrIxFits s :=
+  C06R.csrIxFits_check h
+
+/-- **every judged `view` line is inside the scope of the adaptor theorems**: if the two checks the driver makes pass —
+the base dump is consistent, the stack is `StackOk` — then the table the driver expects, `applyStack Cfg.asIs stack base`
+(the PROVED adaptor functions with the as-is configuration), agrees with the ideal stack on every trait the open finding
+D23 does not reach and is consistent there, presents the composed abstract graph, and IS the ideal stack — consistent on
+every trait — when the stack contains no `UndirectedAdaptor`. -/
+theorem C06_view_expected_in_scope (base : Table) (ops : List Op)
+    (hbase : checkTableWhy (base.ids.getD []) base = []) (hstack : C06Checks.stackOkB base.directed ops = true) :
+    let qs := base.ids.getD []
+    TableConsistent qs { applyStack Cfg.asIs ops base with nbrs := none, edges := none, adj := none } ∧
+    (Op.frozenOwned ∉ ops → abs (applyStack Cfg.asIs ops base) = specStack ops (abs base)) ∧
+    (Op.und ∉ ops → applyStack Cfg.asIs ops base = applyStack Cfg.ideal ops base ∧
+      TableConsistent qs (applyStack Cfg.asIs ops base)) := by
+  intro qs
+  have hb := C06_baseConsistent_check qs base hbase
+  have hs := C06_stackOk_check _ _ hstack
+  exact ⟨(C06_stack_asIs_unaffected qs ops base hs hb).2, fun hfo => C06_stack_abs_asIs ops base hfo,
+    fun hund => C06_stack_asIs_without_und_full (by decide) qs ops base hund hs hb⟩
+
+example : C06Checks.stackOkB w1.directed [.nf 5, .rev, .ef 6] = true ∧ C06Checks.stackOkB w2.directed [.ef 6] = false ∧
+    checkTableWhy (w1.ids.getD []) w1 = [] := by decide
+
+/-! #### 4. the tables of `MatrixGraph`, `Csr`, `adj::List` denote the graphs of the storage specifications -/
+
+/-- `MatrixGraph`: the abstract graph the table denotes IS the C04 simple graph `g` the state refines (`C04T.R`): same
+kind, the node list enumerates the live ids once and `node_references` carry their weights, the edge list has one
+reference per ordered pair (per unordered pair when undirected, either orientation) carrying the pair's weight. -/
+theorem C06_table_abs_MatrixGraph {s : Matrix.State} {g : MatrixSpec.G} (h : C04T.Inv s) (r : C04T.R s g) :
+    DenotesMG (abs (matrixTable s)) (Matrix.nodeRefs s) g ∧ (matrixTable s).refs = some (Matrix.nodeRefs s) :=
+  matrixTable_abs h r
+
+/-- `Csr`: the abstract graph the table denotes IS the C05 simple graph `g` the state represents (`C05T.Abs`): nodes
+`0..n` with `g`'s weights; a reference `a → b` with weight `w` is listed exactly when `g` has that edge — for an
+undirected `Csr`, as the code stands, therefore in both orientations (finding D7) — at most once per ordered pair. -/
+theorem C06_table_abs_Csr {s : CsrM.State} {R : List CsrProofs.Row} {g : AppendSpec.SG} (good : C05T.Good s R)
+    (ab : C05T.Abs s R g) (hf : CsrIxFits s) :
+    DenotesCsr (abs (csrTable s)) (CsrM.nodeReferences s) g ∧ (csrTable s).refs = some (CsrM.nodeReferences s) :=
+  csrTable_abs good ab hf
+
+/-- `adj::List`: the abstract graph the table denotes IS the C05 insertion log `g` (`C05T.LAbs`; a multigraph): directed,
+nodes `0..n`, the edge references are exactly the logged edges, each once. -/
+theorem C06_table_abs_List (s : AdjM.State) (g : AppendSpec.ML) (h : ListWF s) (ab : C05T.LAbs s g) :
+    DenotesML (abs (adjListTable s)) g :=
+  adjListTable_abs s g h ab
+
+/-- … after every history (the abstract graph is the specification machine's: `C04T.absRun`, `C05T.lspecRun`). -/
+theorem C06_table_abs_MatrixGraph_all_histories (dir nz : Bool) (ixMax k : Nat) (ops : List Matrix.Op) :
+    ∃ s0, Matrix.withCapacity dir nz ixMax k = .ok s0 ∧
+      (C04T.ValidHist s0 (MatrixSpec.G.empty dir) ops →
+        DenotesMG (abs (matrixTable (Matrix.run s0 ops).1)) (Matrix.nodeRefs (Matrix.run s0 ops).1)
+          (C04T.absRun s0 (MatrixSpec.G.empty dir) ops)) := by
+  obtain ⟨s0, e, hh⟩ := C04T.C04_all_histories dir nz ixMax k ops
+  exact ⟨s0, e, fun hv => (matrixTable_abs (hh hv).1 (hh hv).2.1).1⟩
+
+theorem C06_table_abs_List_all_histories (m : Nat) (ops : List AdjM.Op) (ht : Visit.TargetsOkRun (AdjM.new m) ops) :
+    DenotesML (abs (adjListTable (AdjM.run (AdjM.new m) ops).1)) (C05T.lspecRun m {} ops).1 :=
+  adjListTable_abs _ _ (run_wf' ops (AdjM.new m) (new_wf m) ht) (C05T.C05_list_all_histories m ops).1
+
+theorem C06_table_abs_Csr_all_histories (d : Bool) (m c : Nat) (dbg : Bool) (n : Nat) (ops : List CsrM.Op)
+    (h0 : m = 0 ∨ n ≤ m) :
+    let s := (CsrM.run (CsrM.withNodes d m c dbg n) ops).1
+    DenotesCsr (abs (csrTable s)) (CsrM.nodeReferences s)
+      (C05T.specRun m { directed := d, nodes := List.replicate n 0, edges := [] } ops).1 := by
+  intro s
+  obtain ⟨R, good, ab, _, hf⟩ := CsrW2.csr_run_facts (CsrProofs.good_withNodes d m c dbg n)
+    (C05T.C05_csr_inv_init d m c dbg n).2.2 ops
+    (by simpa [CsrW2.IxFits, CsrM.withNodes, CsrM.State.nodeCount] using h0)
+  exact (csrTable_abs good ab hf).1
+
+/-- non-vacuity: an undirected `Csr` history (self-loop, duplicate edge, `add_node` after edges) and an `adj::List`
+history with parallel edges and an overwrite. -/
+example :
+    let s := (CsrM.run (CsrM.withNodes false 256 32 true 3) [.addEdge 0 2 5, .addEdge 1 1 7, .addEdge 2 0 9, .addNode 4,
+      .addEdge 3 0 2]).1
+    DenotesCsr (abs (csrTable s)) (CsrM.nodeReferences s)
+      (C05T.specRun 256 { directed := false, nodes := List.replicate 3 0, edges := [] }
+        [.addEdge 0 2 5, .addEdge 1 1 7, .addEdge 2 0 9, .addNode 4, .addEdge 3 0 2]).1 :=
+  C06_table_abs_Csr_all_histories false 256 32 true 3 _ (by omega)
+example : DenotesML (abs (adjListTable (AdjM.run (AdjM.new 256)
+      [.addNode, .addNode, .addEdge 0 1 5, .addEdge 0 1 6, .updateEdge 0 1 9, .addEdge 1 1 3]).1))
+    (C05T.lspecRun 256 {} [.addNode, .addNode, .addEdge 0 1 5, .addEdge 0 1 6, .updateEdge 0 1 9, .addEdge 1 1 3]).1 :=
+  C06_table_abs_List_all_histories 256 _ (targetsOkRun_of_plain _ _ (by
+    intro op hop es; simp only [List.mem_cons, List.not_mem_nil, or_false] at hop
+    rcases hop with rfl | rfl | rfl | rfl | rfl | rfl <;> simp))
+
+/-- non-vacuity: a `MatrixGraph` history inside the quantifier (the D6 witness state). -/
+example : DenotesMG (abs (matrixTable d6State)) (Matrix.nodeRefs d6State)
+    (C04T.absRun d6Init (MatrixSpec.G.empty true) d6Ops) := by
+  obtain ⟨s0, e, hh⟩ := C06_table_abs_MatrixGraph_all_histories true false 255 0 d6Ops
+  rw [d6_init] at e; cases e
+  exact hh d6_valid
 
 end PetgraphModel.C06T
